@@ -2,7 +2,7 @@
    not touch its target.  The builder never inspects extension ids, so it commutes with any renaming
    that maps fresh ids to fresh ids (parametricity); two independent steps commute up to such a renaming. *)
 From ApolloVerif Require Import Base.Chars Ast.Ast Schema.Model Schema.Build Schema.ToAst Schema.Canon
-  Schema.BuildProofs Schema.CanonProofs Schema.RebuildProofs Schema.InvProofs.
+  Schema.BuildProofs Schema.CanonProofs Schema.RebuildProofs Schema.InvProofs Schema.Builtin Schema.BuiltinProofs.
 From Coq Require Import Permutation.
 
 Lemma existsb_map_local {A B} (f : A -> B) p l : existsb p (map f l) = existsb (fun x => p (f x)) l.
@@ -842,4 +842,324 @@ Proof.
     assert (HeA : sbs_errs A2 = sbs_errs B1).
     { pose proof (f_equal sbs_errs HP) as Hq. cbn [cm_upd_sd rn_st sbs_errs] in Hq. symmetry. exact Hq. }
     rewrite HeA. rewrite <- !app_assoc. apply Permutation_app_head, Permutation_app_comm.
+Qed.
+
+(* ---------------------------------------------------------------- the target of the extension stays defined *)
+Definition cm_defined (tgt : option str) (st : sb_state) : Prop :=
+  match tgt with
+  | Some n => exists t, sch_find_type n (sbs_types st) = Some t
+  | None => sbs_found st = true
+  end.
+
+Lemma sch_find_type_app_some n a b t : sch_find_type n a = Some t -> sch_find_type n (a ++ b) = Some t.
+Proof. induction a as [|x a IH]; cbn; [discriminate|]. destruct (streq n (et_name x)); auto. Qed.
+
+Lemma cm_defined_add_def cfg tgt st d : cm_defined tgt st -> cm_defined tgt (sb_add_def cfg st d).
+Proof.
+  destruct tgt as [n|]; cbn [cm_defined].
+  - intros [t Hf].
+    assert (Hdef : forall M dd, exists t2, sch_find_type n (sbs_types (sb_type_definition cfg st M dd)) = Some t2).
+    { intros M dd. unfold sb_type_definition. destruct (sch_find_type M (sbs_types st)) as [prev|].
+      - destruct (sbc_ignore_builtin cfg && et_builtin prev); [eauto|]. destruct (sb_is_scalar_def dd && et_builtin prev); eauto.
+      - destruct (sb_type_of_def dd) as [[t0 e0]|]; [|eauto].
+        destruct (sb_orphan_take M (sbs_orphans st)) as [q orph']. destruct (sb_apply_queued t0 (sbs_next st) q) as [[t1 n1] e1].
+        cbn [sbs_types]. exists t. apply sch_find_type_app_some, Hf. }
+    assert (Hext : forall M k x, exists t2, sch_find_type n (sbs_types (sb_type_extension st M k x)) = Some t2).
+    { intros M k x. unfold sb_type_extension. destruct (sch_find_type M (sbs_types st)) as [tm|] eqn:Em; [|eauto].
+      destruct (sb_extend_type (sbs_next st) tm x) as [[tm' e]|] eqn:Ex; [|eauto]. cbn [sbs_types].
+      destruct (sb_extend_type_some _ _ _ _ _ Ex) as [Hname _]. destruct (sb_find_type_name _ _ _ Em) as [Hm _].
+      destruct (streq n M) eqn:EnM.
+      - apply streq_eq in EnM. exists tm'. rewrite EnM. apply (sch_find_type_update M tm' _ tm Em). congruence.
+      - exists t. rewrite sch_find_type_update_other; [exact Hf|congruence|exact EnM]. }
+    destruct d; cbn [sb_add_def]; try apply Hdef; try apply Hext; unfold sb_with_errs; cbn [sbs_types];
+      repeat match goal with |- context [match ?x with _ => _ end] => destruct x end; eauto.
+  - intros Hf. destruct d; cbn [sb_add_def]; unfold sb_type_definition, sb_type_extension, sb_with_errs;
+      repeat match goal with |- context [match ?x with _ => _ end] => destruct x eqn:? end; cbn [sbs_found]; congruence.
+Qed.
+
+Definition cm_is_ext (e : definition) : bool :=
+  match e with
+  | XSchema _ _ | XScalar _ _ | XObject _ _ _ _ | XInterface _ _ _ _ | XUnion _ _ _ | XEnum _ _ _ | XInput _ _ _ => true
+  | _ => false
+  end.
+
+Lemma cm_swap cfg b0 st e m tgt :
+  iv_state b0 st -> cm_roots_bound st -> iv_def_ok m ->
+  cm_is_ext e = true -> sb_target e = Some tgt -> cm_defined tgt st -> sb_touches tgt m = false ->
+  cm_rel (sb_add_def cfg (sb_add_def cfg st e) m) (sb_add_def cfg (sb_add_def cfg st m) e).
+Proof.
+  intros Hinv Hrb Hok Hext Htgt Hdef Htouch.
+  destruct e; try discriminate; cbn [sb_target] in Htgt; injection Htgt as <-; cbn [cm_defined] in Hdef.
+  - apply (cm_swap_sd cfg b0); assumption.
+  - destruct Hdef as [t Hf]. eapply (cm_swap_type cfg b0 st _ m name SbScalar t); try eassumption; reflexivity.
+  - destruct Hdef as [t Hf]. eapply (cm_swap_type cfg b0 st _ m name SbObject t); try eassumption; reflexivity.
+  - destruct Hdef as [t Hf]. eapply (cm_swap_type cfg b0 st _ m name SbInterface t); try eassumption; reflexivity.
+  - destruct Hdef as [t Hf]. eapply (cm_swap_type cfg b0 st _ m name SbUnion t); try eassumption; reflexivity.
+  - destruct Hdef as [t Hf]. eapply (cm_swap_type cfg b0 st _ m name SbEnum t); try eassumption; reflexivity.
+  - destruct Hdef as [t Hf]. eapply (cm_swap_type cfg b0 st _ m name SbInput t); try eassumption; reflexivity.
+Qed.
+
+(* an extension moved across definitions that do not touch its (defined) target *)
+Lemma cm_move cfg b0 e tgt mid : forall st,
+  iv_state b0 st -> cm_roots_bound st -> Forall iv_def_ok mid ->
+  cm_is_ext e = true -> sb_target e = Some tgt -> cm_defined tgt st ->
+  Forall (fun m => sb_touches tgt m = false) mid ->
+  cm_rel (sb_add_doc cfg (sb_add_def cfg st e) mid) (sb_add_def cfg (sb_add_doc cfg st mid) e).
+Proof.
+  induction mid as [|m mid IH]; intros st Hinv Hrb Hok Hext Htgt Hdef Hun; [apply cm_rel_refl|].
+  inversion Hok; subst. inversion Hun; subst. cbn [sb_add_doc fold_left].
+  eapply cm_rel_trans.
+  - apply cm_rel_add_doc. eapply (cm_swap cfg b0 st e m tgt); eassumption.
+  - apply IH; try assumption.
+    + apply iv_add_def; assumption.
+    + apply cm_roots_bound_add_def; assumption.
+    + apply cm_defined_add_def; assumption.
+Qed.
+
+(* ---------------------------------------------------------------- build_inner under a renaming *)
+Lemma sb_empty_type_rn f k n : rn_type f (sb_empty_type k n) = sb_empty_type k n.
+Proof. destruct k; reflexivity. Qed.
+
+Lemma sb_adopt_loop_next_le k q : forall t next t' n' e, sb_adopt_loop k t next q = Some (t', n', e) -> next <= n'.
+Proof.
+  induction q as [|x q IH]; intros t next t' n' e; cbn [sb_adopt_loop].
+  - intros [= _ <- _]. lia.
+  - destruct (sb_extend_type next t x) as [[t1 e1]|].
+    + destruct (sb_adopt_loop k t1 (next + 1) q) as [[[t2 n2] e2]|] eqn:E2; [|discriminate]. intros [= _ <- _].
+      specialize (IH _ _ _ _ _ E2). lia.
+    + destruct (sb_ext_name x), (sb_ext_kind x); try discriminate.
+      destruct (sb_adopt_loop k t next q) as [[[t2 n2] e2]|] eqn:E2; [|discriminate]. intros [= _ <- _]. apply (IH _ _ _ _ _ E2).
+Qed.
+
+Lemma sb_adopt_loop_rn f k q : forall t next nn,
+  cm_fresh f next nn ->
+  sb_adopt_loop k (rn_type f t) nn q =
+  match sb_adopt_loop k t next q with
+  | Some (t', n', e) => Some (rn_type f t', nn + (n' - next), e)
+  | None => None
+  end.
+Proof.
+  induction q as [|x q IH]; intros t next nn Hf; cbn [sb_adopt_loop].
+  - rewrite N.sub_diag, N.add_0_r. reflexivity.
+  - rewrite <- (cm_fresh_0 _ _ _ Hf), sb_extend_type_rn. destruct (sb_extend_type next t x) as [[t1 e1]|].
+    + rewrite (cm_fresh_0 _ _ _ Hf), (IH t1 (next + 1) (nn + 1) (cm_fresh_S _ _ _ Hf)).
+      destruct (sb_adopt_loop k t1 (next + 1) q) as [[[t2 n2] e2]|] eqn:E2; [|reflexivity].
+      pose proof (sb_adopt_loop_next_le _ _ _ _ _ _ _ E2). f_equal. f_equal. f_equal. lia.
+    + destruct (sb_ext_name x), (sb_ext_kind x); try reflexivity.
+      rewrite (cm_fresh_0 _ _ _ Hf), (IH t next nn Hf). destruct (sb_adopt_loop k t next q) as [[[t2 n2] e2]|]; reflexivity.
+Qed.
+
+Lemma sb_adopt_rn f n q next nn :
+  cm_fresh f next nn ->
+  sb_adopt n nn q = match sb_adopt n next q with
+                    | Some (t', n', e) => Some (rn_type f t', nn + (n' - next), e)
+                    | None => None
+                    end.
+Proof.
+  intros Hf. unfold sb_adopt. destruct q as [|x q]; [reflexivity|]. destruct (sb_ext_kind x) as [k|]; [|reflexivity].
+  rewrite <- (sb_empty_type_rn f k n) at 1. apply sb_adopt_loop_rn, Hf.
+Qed.
+
+Lemma sb_adopt_next_le n next q t n' e : sb_adopt n next q = Some (t, n', e) -> next <= n'.
+Proof.
+  unfold sb_adopt. destruct q as [|x q]; [discriminate|]. destruct (sb_ext_kind x); [|discriminate]. apply sb_adopt_loop_next_le.
+Qed.
+
+Lemma cm_fresh_shift f next nn k : cm_fresh f next nn -> cm_fresh f (next + k) (nn + k).
+Proof. intros H j. specialize (H (k + j)). rewrite !N.add_assoc in H. exact H. Qed.
+
+Lemma sb_adopt_all_next_le q : forall types next ts n' e, sb_adopt_all types next q = Some (ts, n', e) -> next <= n'.
+Proof.
+  induction q as [|[n l] q IH]; intros types next ts n' e; cbn [sb_adopt_all].
+  - intros [= _ <- _]. lia.
+  - destruct (sb_adopt n next l) as [[[t n1] e1]|] eqn:Ea; [|discriminate].
+    destruct (sch_find_type n types); [discriminate|].
+    destruct (sb_adopt_all (types ++ [t]) n1 q) as [[[ts2 n2] e2]|] eqn:Eq; [|discriminate]. intros [= _ <- _].
+    pose proof (sb_adopt_next_le _ _ _ _ _ _ Ea). specialize (IH _ _ _ _ _ Eq). lia.
+Qed.
+
+Lemma sb_adopt_all_rn f q : forall types next nn,
+  cm_fresh f next nn ->
+  sb_adopt_all (map (rn_type f) types) nn q =
+  match sb_adopt_all types next q with
+  | Some (ts, n', e) => Some (map (rn_type f) ts, nn + (n' - next), e)
+  | None => None
+  end.
+Proof.
+  induction q as [|[n l] q IH]; intros types next nn Hf; cbn [sb_adopt_all].
+  - rewrite N.sub_diag, N.add_0_r. reflexivity.
+  - rewrite (sb_adopt_rn f n l next nn Hf). destruct (sb_adopt n next l) as [[[t n1] e1]|] eqn:Ea; [|reflexivity].
+    rewrite sch_find_type_rn. destruct (sch_find_type n types); [reflexivity|]. cbn [option_map].
+    pose proof (sb_adopt_next_le _ _ _ _ _ _ Ea) as Hle.
+    assert (Hf' : cm_fresh f n1 (nn + (n1 - next))).
+    { replace n1 with (next + (n1 - next)) at 1 by lia. apply cm_fresh_shift, Hf. }
+    replace (map (rn_type f) types ++ [rn_type f t]) with (map (rn_type f) (types ++ [t])) by (rewrite map_app; reflexivity).
+    rewrite (IH (types ++ [t]) n1 _ Hf').
+    destruct (sb_adopt_all (types ++ [t]) n1 q) as [[[ts2 n2] e2]|] eqn:Eq; [|reflexivity].
+    pose proof (sb_adopt_all_next_le _ _ _ _ _ _ Eq). f_equal. f_equal. f_equal. lia.
+Qed.
+
+Lemma sb_has_object_rn f types n : sb_has_object (map (rn_type f) types) n = sb_has_object types n.
+Proof.
+  unfold sb_has_object. rewrite sch_find_type_rn. destruct (sch_find_type n types) as [t|]; [|reflexivity].
+  destruct t; reflexivity.
+Qed.
+
+Lemma sb_add_implicit_roots_ext sd T' T :
+  (forall n, sb_has_object T' n = sb_has_object T n) -> sb_add_implicit_roots sd T' = sb_add_implicit_roots sd T.
+Proof.
+  intros H. unfold sb_add_implicit_roots. cbn [fold_left].
+  rewrite (H (sb_default_type_name OpQuery)). destruct (sb_has_object T (sb_default_type_name OpQuery)); cbn beta iota;
+  rewrite (H (sb_default_type_name OpMutation)); destruct (sb_has_object T (sb_default_type_name OpMutation)); cbn beta iota;
+  rewrite (H (sb_default_type_name OpSubscription)); reflexivity.
+Qed.
+
+Lemma sb_add_implicit_roots_rn f sd types :
+  sb_add_implicit_roots (rn_sd f sd) (map (rn_type f) types) =
+  (rn_sd f (fst (sb_add_implicit_roots sd types)), snd (sb_add_implicit_roots sd types)).
+Proof.
+  rewrite (sb_add_implicit_roots_ext _ _ types (sb_has_object_rn f types)).
+  unfold sb_add_implicit_roots. cbn [fold_left]. destruct sd as [d dirs q m s].
+  destruct (sb_has_object types (sb_default_type_name OpQuery)); cbn beta iota;
+  destruct (sb_has_object types (sb_default_type_name OpMutation)); cbn beta iota;
+  destruct (sb_has_object types (sb_default_type_name OpSubscription)); reflexivity.
+Qed.
+
+Definition cm_rn_result (f : N -> N) (r : sb_result) : sb_result :=
+  match r with SbBuilt s e => SbBuilt (rn_schema f s) e | SbPanic => SbPanic end.
+
+Lemma sb_build_inner_rn cfg f st nn :
+  cm_fresh f (sbs_next st) nn ->
+  sb_build_inner cfg (rn_st f nn st) = cm_rn_result f (sb_build_inner cfg st).
+Proof.
+  intros Hf. unfold sb_build_inner. cbn [rn_st sbs_types sbs_next sbs_orphans sbs_errs sbs_found sbs_def sbs_dirdefs sbs_orphan_sx].
+  destruct (sbc_adopt cfg).
+  - rewrite (sb_adopt_all_rn f _ _ (sbs_next st) nn Hf).
+    destruct (sb_adopt_all (sbs_types st) (sbs_next st) (sbs_orphans st)) as [[[types n1] e1]|] eqn:Ea; [|reflexivity].
+    pose proof (sb_adopt_all_next_le _ _ _ _ _ _ Ea) as Hle.
+    destruct (sbs_found st); [reflexivity|].
+    assert (Hf' : cm_fresh f n1 (nn + (n1 - sbs_next st))).
+    { replace n1 with (sbs_next st + (n1 - sbs_next st)) at 1 by lia. apply cm_fresh_shift, Hf. }
+    rewrite (sb_extend_schema_def_all_rn f _ _ n1 _ Hf').
+    destruct (sb_extend_schema_def_all n1 (sbs_def st) (sbs_orphan_sx st)) as [[sd1 n2] e2].
+    rewrite sb_roots_all_none_rn. unfold cm_rn_result, rn_schema. cbn [sch_def sch_dirdefs sch_types].
+    destruct (sb_roots_all_none sd1); [|reflexivity]. rewrite sb_add_implicit_roots_rn. reflexivity.
+  - destruct (sb_all_orphan_errors (sbs_orphans st)) as [e1|]; [|reflexivity].
+    destruct (sbs_found st); [reflexivity|].
+    rewrite sb_add_implicit_roots_rn. destruct (sb_add_implicit_roots (sbs_def st) (sbs_types st)) as [sd1 has]. cbn [fst snd].
+    destruct has; [|reflexivity].
+    rewrite (sb_extend_schema_def_all_rn f _ _ (sbs_next st) nn Hf).
+    destruct (sb_extend_schema_def_all (sbs_next st) sd1 (sbs_orphan_sx st)) as [[sd2 n2] e2]. reflexivity.
+Qed.
+
+(* ---------------------------------------------------------------- results up to renaming *)
+Definition sb_result_equiv (r1 r2 : sb_result) : Prop :=
+  match r1, r2 with
+  | SbBuilt s1 e1, SbBuilt s2 e2 => sch_equiv s1 s2 /\ Permutation e1 e2
+  | SbPanic, SbPanic => True
+  | _, _ => False
+  end.
+
+Lemma sch_canon_rn f s : (forall x y, f x = f y -> x = y) -> sch_canon (rn_schema f s) = sch_canon s.
+Proof.
+  intros Hinj. unfold sch_canon, rn_schema. cbn [sch_def sch_dirdefs sch_types]. f_equal.
+  - apply cn_sd_rn. intros a b _ _. apply Hinj.
+  - rewrite map_map. apply map_ext. intros t. apply cn_type_rn. intros a b _ _. apply Hinj.
+Qed.
+
+Lemma cm_rel_build_inner cfg a b : cm_rel a b -> sb_result_equiv (sb_build_inner cfg a) (sb_build_inner cfg b).
+Proof.
+  intros [Hn [f [Hinj [Hid [Hst Hp]]]]].
+  rewrite (sb_build_inner_errs cfg a), (sb_build_inner_errs cfg b), <- Hst, <- rn_st_set_errs.
+  rewrite (sb_build_inner_rn cfg f (sb_set_errs a []) (sbs_next a)).
+  2:{ intros j. cbn [sb_set_errs sbs_next]. apply Hid. lia. }
+  destruct (sb_build_inner cfg (sb_set_errs a [])) as [s e0|]; cbn [cm_rn_result sb_result_equiv]; [|exact Logic.I].
+  split; [|apply Permutation_app_tail, Hp]. unfold sch_equiv. symmetry. apply sch_canon_rn, Hinj.
+Qed.
+
+(* no definition of `mid` touches what the extension e extends *)
+Definition sb_untouched (e : definition) (mid : list definition) : bool :=
+  match sb_target e with
+  | Some tgt => forallb (fun m => negb (sb_touches tgt m)) mid
+  | None => true
+  end.
+
+Lemma cm_extends_facts cfg e d st :
+  sb_extends e d = true ->
+  exists tgt, cm_is_ext e = true /\ sb_target e = Some tgt /\ cm_defined tgt (sb_add_def cfg st d).
+Proof.
+  intros H. unfold sb_extends in H.
+  assert (Htype : forall n, sb_ext_name e = Some n -> cm_is_ext e = true /\ sb_target e = Some (Some n)).
+  { intros n. destruct e; cbn; try discriminate; intros [= <-]; auto. }
+  assert (Hdef : forall n p, sb_type_of_def d = Some p -> def_name d = Some n ->
+                 cm_defined (Some n) (sb_add_def cfg st d)).
+  { intros n [t0 e0] Hp Hn. rewrite (sb_add_def_typedef cfg st d n _ Hp Hn). cbn [cm_defined]. unfold sb_type_definition.
+    destruct (sch_find_type n (sbs_types st)) as [prev|] eqn:Ef.
+    - destruct (sbc_ignore_builtin cfg && et_builtin prev); [eauto|]. destruct (sb_is_scalar_def d && et_builtin prev); eauto.
+    - rewrite Hp. destruct (sb_orphan_take n (sbs_orphans st)) as [q orph'].
+      destruct (sb_apply_queued t0 (sbs_next st) q) as [[t1 n1] e1] eqn:Eq. cbn [sbs_types].
+      destruct (sb_apply_queued_props _ _ _ _ _ _ Eq) as [Hn1 _]. destruct (sb_type_of_def_name _ _ _ Hp) as [Hn0 _].
+      exists t1. rewrite (sch_find_type_app_none _ _ _ Ef). cbn. assert (et_name t1 = n) by congruence.
+      rewrite H0, streq_refl. reflexivity. }
+  destruct e; cbn in H; try discriminate.
+  - destruct d; cbn in H; try discriminate. exists None. split; [reflexivity|]. split; [reflexivity|].
+    cbn [cm_defined sb_add_def]. destruct (sbs_found st) eqn:Ef; [exact Ef|].
+    destruct (sb_add_roots ODef _ roots0) as [sd1 e1]. destruct (sb_extend_schema_def_all (sbs_next st) sd1 (sbs_orphan_sx st)) as [[sd2 n2] e2].
+    reflexivity.
+  - destruct (def_name d) as [m|] eqn:Em; [|discriminate]. destruct (sb_type_of_def d) as [p|] eqn:Ep; [|discriminate].
+    apply streq_eq in H. subst m. exists (Some name). split; [reflexivity|]. split; [reflexivity|]. apply (Hdef name p eq_refl eq_refl).
+  - destruct (def_name d) as [m|] eqn:Em; [|discriminate]. destruct (sb_type_of_def d) as [p|] eqn:Ep; [|discriminate].
+    apply streq_eq in H. subst m. exists (Some name). split; [reflexivity|]. split; [reflexivity|]. apply (Hdef name p eq_refl eq_refl).
+  - destruct (def_name d) as [m|] eqn:Em; [|discriminate]. destruct (sb_type_of_def d) as [p|] eqn:Ep; [|discriminate].
+    apply streq_eq in H. subst m. exists (Some name). split; [reflexivity|]. split; [reflexivity|]. apply (Hdef name p eq_refl eq_refl).
+  - destruct (def_name d) as [m|] eqn:Em; [|discriminate]. destruct (sb_type_of_def d) as [p|] eqn:Ep; [|discriminate].
+    apply streq_eq in H. subst m. exists (Some name). split; [reflexivity|]. split; [reflexivity|]. apply (Hdef name p eq_refl eq_refl).
+  - destruct (def_name d) as [m|] eqn:Em; [|discriminate]. destruct (sb_type_of_def d) as [p|] eqn:Ep; [|discriminate].
+    apply streq_eq in H. subst m. exists (Some name). split; [reflexivity|]. split; [reflexivity|]. apply (Hdef name p eq_refl eq_refl).
+  - destruct (def_name d) as [m|] eqn:Em; [|discriminate]. destruct (sb_type_of_def d) as [p|] eqn:Ep; [|discriminate].
+    apply streq_eq in H. subst m. exists (Some name). split; [reflexivity|]. split; [reflexivity|]. apply (Hdef name p eq_refl eq_refl).
+Qed.
+
+Lemma cm_roots_bound_init b0 : iv_b0 b0 -> cm_roots_bound (sb_init b0).
+Proof. intros [Hsd _]. unfold cm_roots_bound, sb_init. cbn [sbs_def]. rewrite Hsd. intros [] c H; discriminate. Qed.
+
+Lemma cm_roots_bound_add_doc cfg doc : forall st, cm_roots_bound st -> cm_roots_bound (sb_add_doc cfg st doc).
+Proof. induction doc as [|d doc IH]; intros st H; cbn; [exact H|]. apply IH, cm_roots_bound_add_def, H. Qed.
+
+Theorem sb_commute cfg b0 pre e d mid post :
+  iv_b0 b0 -> Forall iv_def_ok (pre ++ d :: mid) ->
+  sb_extends e d = true -> sb_untouched e mid = true ->
+  sb_result_equiv (sb_build cfg b0 (pre ++ e :: d :: mid ++ post))
+                  (sb_build cfg b0 (pre ++ d :: mid ++ e :: post)).
+Proof.
+  intros Hb0 Hok Hext Hun.
+  apply Forall_app in Hok. destruct Hok as [Hokpre Hok]. inversion Hok as [|? ? Hokd Hokmid]; subst.
+  set (st := sb_add_doc cfg (sb_init b0) pre).
+  assert (Hinv : iv_state b0 st) by (apply iv_add_doc; [exact Hokpre|apply iv_init, Hb0]).
+  assert (Hrb : cm_roots_bound st) by (apply cm_roots_bound_add_doc, cm_roots_bound_init, Hb0).
+  destruct (cm_extends_facts cfg e d st Hext) as [tgt [Hise [Htgt Hdef]]].
+  assert (Hunt : Forall (fun m => sb_touches tgt m = false) mid).
+  { unfold sb_untouched in Hun. rewrite Htgt in Hun. apply Forall_forall. intros m Hm.
+    rewrite forallb_forall in Hun. apply negb_true_iff, Hun, Hm. }
+  unfold sb_build, sb_build_docs, sb_add_docs. cbn [fold_left].
+  replace (pre ++ e :: d :: mid ++ post) with (pre ++ [e; d] ++ mid ++ post) by reflexivity.
+  replace (pre ++ d :: mid ++ e :: post) with (pre ++ [d] ++ mid ++ [e] ++ post) by reflexivity.
+  rewrite !sb_add_doc_app. fold st. apply cm_rel_build_inner, cm_rel_add_doc.
+  cbn [sb_add_doc fold_left].
+  eapply cm_rel_trans.
+  - apply cm_rel_add_doc. apply cm_rel_of_eqv; [|apply sb_swap_adjacent, Hext].
+    pose proof (sb_swap_adjacent cfg st e d Hext) as [Heq _]. apply (f_equal sbs_next) in Heq. exact Heq.
+  - apply (cm_move cfg b0 e tgt mid (sb_add_def cfg st d)); try assumption.
+    + apply iv_add_def; assumption.
+    + apply cm_roots_bound_add_def, Hrb.
+Qed.
+
+(* the same with the decidable hypotheses of Schema/Builtin.v *)
+Theorem bi_commute cfg b0 pre e d mid post :
+  bi_b0_ok b0 = true -> bi_doc_ok (pre ++ d :: mid) = true ->
+  sb_extends e d = true -> sb_untouched e mid = true ->
+  sb_result_equiv (sb_build cfg b0 (pre ++ e :: d :: mid ++ post))
+                  (sb_build cfg b0 (pre ++ d :: mid ++ e :: post)).
+Proof.
+  intros Hb0 Hdoc. apply sb_commute; [apply bi_b0_ok_spec, Hb0|apply bi_doc_ok_spec, Hdoc].
 Qed.
